@@ -48,11 +48,13 @@ package db
 //                the right-most child starts at c_lo(N,ncells) and ends at hi(N)
 //   every child belongs to its parent's tree
 //@ axioms table_tree
-//@ (assert (forall ((L Int)) (! (= (p_hi (pg L)) (bvadd (p_lo (pg L)) (s_len (F_db_tableLeaf_cells L)))) :pattern ((F_db_tableLeaf_cells L)))))
-//@ (assert (forall ((L Int) (k (_ BitVec 64))) (! (=> (and (bvsle #x0000000000000000 k) (bvslt k (s_len (F_db_tableLeaf_cells L)))) (and (= (tb_rowid (tree_of (pg L)) (bvadd (p_lo (pg L)) k)) (S_db_tableLeafCell_0_left (select (FE_db_tableLeaf_cells L) (bvadd (s_off (F_db_tableLeaf_cells L)) k)))) (= (tb_payload (tree_of (pg L)) (bvadd (p_lo (pg L)) k)) (S_db_tableLeafCell_1_payload (select (FE_db_tableLeaf_cells L) (bvadd (s_off (F_db_tableLeaf_cells L)) k)))))) :pattern ((select (FE_db_tableLeaf_cells L) (bvadd (s_off (F_db_tableLeaf_cells L)) k))))))
-//@ (assert (forall ((N Int)) (! (= (c_lo N #x0000000000000000) (p_lo (pg N))) :pattern ((F_db_tableInterior_cells N)))))
-//@ (assert (forall ((N Int) (i (_ BitVec 64))) (! (=> (and (bvsle #x0000000000000000 i) (bvslt i (s_len (F_db_tableInterior_cells N)))) (and (= (p_lo (S_db_tableInteriorCell_0_left (select (FE_db_tableInterior_cells N) (bvadd (s_off (F_db_tableInterior_cells N)) i)))) (c_lo N i)) (= (c_lo N (bvadd i #x0000000000000001)) (p_hi (S_db_tableInteriorCell_0_left (select (FE_db_tableInterior_cells N) (bvadd (s_off (F_db_tableInterior_cells N)) i))))) (= (tree_of (S_db_tableInteriorCell_0_left (select (FE_db_tableInterior_cells N) (bvadd (s_off (F_db_tableInterior_cells N)) i)))) (tree_of (pg N))))) :pattern ((select (FE_db_tableInterior_cells N) (bvadd (s_off (F_db_tableInterior_cells N)) i))))))
-//@ (assert (forall ((N Int)) (! (and (= (p_lo (F_db_tableInterior_rightmost N)) (c_lo N (s_len (F_db_tableInterior_cells N)))) (= (p_hi (F_db_tableInterior_rightmost N)) (p_hi (pg N))) (= (tree_of (F_db_tableInterior_rightmost N)) (tree_of (pg N)))) :pattern ((F_db_tableInterior_rightmost N)))))
+//@ (assert (forall ((X Int)) (! (= (p_hi (pg X)) (bvadd (p_lo (pg X)) (s_len (F_db_tableLeaf_cells X)))) :pattern ((F_db_tableLeaf_cells X)))))
+//@ (assert (forall ((X Int) (a (_ BitVec 64))) (! (=> (and (bvule (s_off (F_db_tableLeaf_cells X)) a) (bvult a (bvadd (s_off (F_db_tableLeaf_cells X)) (s_len (F_db_tableLeaf_cells X))))) (and (= (tb_rowid (tree_of (pg X)) (bvadd (p_lo (pg X)) (bvsub a (s_off (F_db_tableLeaf_cells X))))) (S_db_tableLeafCell_0_left (select (FE_db_tableLeaf_cells X) a))) (= (tb_payload (tree_of (pg X)) (bvadd (p_lo (pg X)) (bvsub a (s_off (F_db_tableLeaf_cells X))))) (S_db_tableLeafCell_1_payload (select (FE_db_tableLeaf_cells X) a))))) :pattern ((select (FE_db_tableLeaf_cells X) a)))))
+//@ (assert (forall ((X Int)) (! (= (c_lo X #x0000000000000000) (p_lo (pg X))) :pattern ((F_db_tableInterior_cells X)))))
+//@ (assert (forall ((X Int) (a (_ BitVec 64))) (! (=> (and (bvule (s_off (F_db_tableInterior_cells X)) a) (bvult a (bvadd (s_off (F_db_tableInterior_cells X)) (s_len (F_db_tableInterior_cells X))))) (and (= (p_lo (S_db_tableInteriorCell_0_left (select (FE_db_tableInterior_cells X) a))) (c_lo X (bvsub a (s_off (F_db_tableInterior_cells X))))) (= (c_lo X (bvadd (bvsub a (s_off (F_db_tableInterior_cells X))) #x0000000000000001)) (p_hi (S_db_tableInteriorCell_0_left (select (FE_db_tableInterior_cells X) a)))) (= (tree_of (S_db_tableInteriorCell_0_left (select (FE_db_tableInterior_cells X) a))) (tree_of (pg X))))) :pattern ((select (FE_db_tableInterior_cells X) a)))))
+//@ (assert (forall ((X Int)) (! (and (= (p_lo (F_db_tableInterior_rightmost X)) (c_lo X (s_len (F_db_tableInterior_cells X)))) (= (p_hi (F_db_tableInterior_rightmost X)) (p_hi (pg X))) (= (tree_of (F_db_tableInterior_rightmost X)) (tree_of (pg X)))) :pattern ((F_db_tableInterior_rightmost X)))))
+
+//@ macro TFIRST() = tfirst(cur_tree, skey)
 
 // ---------------------------------------------------------------------------------------
 // Protocols
@@ -66,6 +68,7 @@ package db
 //@   requires [nohalt] !halt
 //@   requires [item] rowid == tb_rowid(cur_tree, pos) && pl == tb_payload(cur_tree, pos)
 //@   ensures err == nil ==> pos == old(pos) + 1 && (halt <==> done)
+//@   ensures err == nil && searching ==> done
 
 // Child-level callback of an interior table page: walks the subtree of page `page` completely.
 //@ functype db.interiorIterCB
@@ -74,9 +77,12 @@ package db
 //@   opt results=done err
 //@   modifies * pos halt
 //@   requires [nohalt] !halt
-//@   requires [child] tree_of(page) == cur_tree && pos == p_lo(page)
-//@   ensures err == nil && !done ==> pos == p_hi(page) && !halt
-//@   ensures err == nil && done ==> halt
+//@   requires [child] tree_of(page) == cur_tree
+//@   requires [cursor] (!searching ==> pos == p_lo(page)) && (searching ==> ule(p_lo(page), TFIRST()) && ule(TFIRST(), p_hi(page)) && pos == TFIRST())
+//@   ensures !searching && err == nil && !done ==> pos == p_hi(page) && !halt
+//@   ensures !searching && err == nil && done ==> halt
+//@   ensures searching && err == nil && ult(TFIRST(), p_hi(page)) ==> done && halt && pos == old(pos) + 1
+//@   ensures searching && err == nil && TFIRST() == p_hi(page) ==> !done && !halt && pos == old(pos)
 
 // Walk of the subtree rooted at node self: every item once, in order, unless stopped or failed.
 //@ iface db.tableBtree.Iter
@@ -85,7 +91,7 @@ package db
 //@   opt results=done err
 //@   modifies * pos halt
 //@   requires [nonnil] self != nil && cb != nil
-//@   requires [nohalt] !halt
+//@   requires [nohalt] !halt && !searching
 //@   requires [cursor] tree_of(pg(self)) == cur_tree && pos == p_lo(pg(self))
 //@   ensures [all] err == nil && !done ==> pos == p_hi(pg(self)) && !halt
 //@   ensures [stopped] err == nil && done ==> halt
@@ -102,7 +108,7 @@ package db
 //@   opt results=done err
 //@   modifies * pos halt
 //@   requires l != nil && cb != nil
-//@   requires !halt
+//@   requires !halt && !searching
 //@   requires tree_of(pg(l)) == cur_tree && pos == p_lo(pg(l))
 //@   ensures [all] err == nil && !done ==> pos == p_hi(pg(l)) && !halt
 //@   ensures [stopped] err == nil && done ==> halt
@@ -115,7 +121,7 @@ package db
 // The closure handed to cellIter: open the child page and walk it.
 //@ func (*db.tableInterior).Iter$1
 //@   implements functype db.interiorIterCB
-//@   free-requires cb != nil
+//@   free-requires cb != nil && !searching
 
 // Seam: the node object returned for page p is the faithful decode of page p (newBtree's verified
 // decode contract plus the page-cache invariant of property C08); its identity is abstracted to
@@ -124,3 +130,62 @@ package db
 //@   props C01 C04 C12
 //@   modifies *
 //@   trusted-ensures err == nil ==> r0 != nil && iref(r0) != nil && pg(iref(r0)) == page
+
+// ---------------------------------------------------------------------------------------
+// Rowid search (C04). Ghost: searching = the walk in progress is a search for rowid skey and its
+// callback stops at the first delivery. tfirst(t, k): position of the first item of table tree t
+// whose rowid is >= k (p_hi(t) when there is none).
+//@ ghost searching bool
+//@ ghost skey bv64
+
+//@ smt tree_search
+//@ (declare-fun tfirst ((_ BitVec 64) (_ BitVec 64)) (_ BitVec 64))
+
+// Well-formedness of the file (the properties quantify over well-formed files): positions nest,
+// rowids are sorted along the enumeration, which is what makes tfirst(t,k) well defined: item j lies
+// before tfirst(t,k) iff its rowid is < k; and interior separator keys separate: rowids in child i
+// are <= key i, rowids after child i are > key i.
+//@ axioms table_sorted
+//@ (assert (forall ((p (_ BitVec 64))) (! (and (bvule (p_lo (tree_of p)) (p_lo p)) (bvule (p_lo p) (p_hi p)) (bvule (p_hi p) (p_hi (tree_of p))) (bvule (p_hi (tree_of p)) #x0000ffffffffffff)) :pattern ((p_lo p)) :pattern ((p_hi p)))))
+//@ (assert (forall ((t (_ BitVec 64)) (k (_ BitVec 64))) (! (and (bvule (p_lo t) (tfirst t k)) (bvule (tfirst t k) (p_hi t))) :pattern ((tfirst t k)))))
+//@ (assert (forall ((t (_ BitVec 64)) (k (_ BitVec 64)) (j (_ BitVec 64))) (! (=> (and (bvule (p_lo t) j) (bvult j (p_hi t))) (= (bvult j (tfirst t k)) (bvslt (tb_rowid t j) k))) :pattern ((tfirst t k) (tb_rowid t j)))))
+//@ (assert (forall ((X Int) (a (_ BitVec 64)) (j (_ BitVec 64))) (! (=> (and (and (bvule (s_off (F_db_tableInterior_cells X)) a) (bvult a (bvadd (s_off (F_db_tableInterior_cells X)) (s_len (F_db_tableInterior_cells X))))) (bvule (p_lo (pg X)) j) (bvult j (p_hi (pg X)))) (ite (bvult j (c_lo X (bvadd (bvsub a (s_off (F_db_tableInterior_cells X))) #x0000000000000001))) (bvsle (tb_rowid (tree_of (pg X)) j) (S_db_tableInteriorCell_1_key (select (FE_db_tableInterior_cells X) a))) (bvsgt (tb_rowid (tree_of (pg X)) j) (S_db_tableInteriorCell_1_key (select (FE_db_tableInterior_cells X) a))))) :pattern ((select (FE_db_tableInterior_cells X) a) (tb_rowid (tree_of (pg X)) j)))))
+//@ (assert (forall ((X Int) (a (_ BitVec 64))) (! (=> (and (bvule (s_off (F_db_tableInterior_cells X)) a) (bvult a (bvadd (s_off (F_db_tableInterior_cells X)) (s_len (F_db_tableInterior_cells X))))) (and (bvule (p_lo (pg X)) (c_lo X (bvsub a (s_off (F_db_tableInterior_cells X))))) (bvule (c_lo X (bvsub a (s_off (F_db_tableInterior_cells X)))) (c_lo X (bvadd (bvsub a (s_off (F_db_tableInterior_cells X))) #x0000000000000001))) (bvule (c_lo X (bvadd (bvsub a (s_off (F_db_tableInterior_cells X))) #x0000000000000001)) (p_hi (pg X))))) :pattern ((select (FE_db_tableInterior_cells X) a)))))
+//@ (assert (forall ((X Int) (a (_ BitVec 64)) (k (_ BitVec 64))) (! (=> (and (bvule (s_off (F_db_tableInterior_cells X)) a) (bvult a (bvadd (s_off (F_db_tableInterior_cells X)) (s_len (F_db_tableInterior_cells X))))) (and (=> (and (bvslt (S_db_tableInteriorCell_1_key (select (FE_db_tableInterior_cells X) a)) k) (bvuge (tfirst (tree_of (pg X)) k) (p_lo (pg X)))) (bvuge (tfirst (tree_of (pg X)) k) (c_lo X (bvadd (bvsub a (s_off (F_db_tableInterior_cells X))) #x0000000000000001)))) (=> (and (bvsge (S_db_tableInteriorCell_1_key (select (FE_db_tableInterior_cells X) a)) k) (bvule (tfirst (tree_of (pg X)) k) (p_hi (pg X)))) (bvule (tfirst (tree_of (pg X)) k) (c_lo X (bvadd (bvsub a (s_off (F_db_tableInterior_cells X))) #x0000000000000001)))))) :pattern ((select (FE_db_tableInterior_cells X) a) (tfirst (tree_of (pg X)) k)))))
+//@ (assert (forall ((t (_ BitVec 64)) (k (_ BitVec 64))) (! (and (=> (bvult (tfirst t k) (p_hi t)) (bvsge (tb_rowid t (tfirst t k)) k)) (=> (bvugt (tfirst t k) (p_lo t)) (bvslt (tb_rowid t (bvsub (tfirst t k) #x0000000000000001)) k))) :pattern ((tfirst t k)))))
+
+//@ iface db.tableBtree.IterMin
+//@   props C04 C12
+//@   opt params=self r db rowid cb
+//@   opt results=done err
+//@   modifies * pos halt
+//@   requires [nonnil] self != nil && cb != nil
+//@   requires [mode] searching && rowid == skey && !halt
+//@   requires [cursor] tree_of(pg(self)) == cur_tree && ule(p_lo(pg(self)), TFIRST()) && ule(TFIRST(), p_hi(pg(self))) && pos == TFIRST()
+//@   ensures [found] err == nil && ult(TFIRST(), p_hi(pg(self))) ==> done && halt && pos == old(pos) + 1
+//@   ensures [absent] err == nil && TFIRST() == p_hi(pg(self)) ==> !done && !halt && pos == old(pos)
+
+//@ func (*db.tableLeaf).IterMin
+//@   implements iface db.tableBtree.IterMin
+//@   uses table_tree table_sorted
+
+//@ func (*db.tableInterior).cellIterMin
+//@   props C04 C12
+//@   uses table_tree table_sorted
+//@   opt results=done err
+//@   modifies * pos halt
+//@   requires l != nil && cb != nil && searching && rowid == skey && !halt
+//@   requires tree_of(pg(l)) == cur_tree && ule(p_lo(pg(l)), TFIRST()) && ule(TFIRST(), p_hi(pg(l))) && pos == TFIRST()
+//@   ensures [found] err == nil && ult(TFIRST(), p_hi(pg(l))) ==> done && halt && pos == old(pos) + 1
+//@   ensures [absent] err == nil && TFIRST() == p_hi(pg(l)) ==> !done && !halt && pos == old(pos)
+//@   loop 1 invariant 0 <= $i && $i <= len(l.cells) && n + $i <= len(l.cells) && pos == TFIRST() && !halt
+//@   loop 1 invariant ule(c_lo(l, n + $i), TFIRST()) && ($i > 0 ==> TFIRST() == c_lo(l, n + $i))
+//@   loop 1 exit n + $i == len(l.cells)
+//@   loop 1 decreases len(l.cells) - n - $i
+
+//@ func (*db.tableInterior).IterMin
+//@   implements iface db.tableBtree.IterMin
+
+//@ func (*db.tableInterior).IterMin$1
+//@   implements functype db.interiorIterCB
+//@   free-requires cb != nil && rowid == skey && searching
